@@ -158,3 +158,26 @@ func TestVerifZipperMatching(t *testing.T) {
 		}
 	}
 }
+
+// ---------------------------------------------------------------------------
+// C17: work counters (hook H3) and completion of adversarial inputs.
+// ---------------------------------------------------------------------------
+
+func vfUses(fn *ssa.Function) (uses, blocks int) {
+	blocks = len(fn.Blocks)
+	for _, p := range fn.Params {
+		if r := p.Referrers(); r != nil {
+			uses += len(*r)
+		}
+	}
+	for _, b := range fn.Blocks {
+		for _, in := range b.Instrs {
+			if v, ok := in.(ssa.Value); ok {
+				if r := v.Referrers(); r != nil {
+					uses += len(*r)
+				}
+			}
+		}
+	}
+	return
+}
